@@ -196,6 +196,33 @@ CLAIMED = {
             "CPython base64 / binascii behaviour with validate=True", "5/C19"),
 }
 
+# clauses added while building (DESIGN.md section 11.2), appended to the level text
+ADDENDA = {
+    "C01": "Also decided: the payload inside the signing input is the payload that is returned (or the segment the extractor pairs with it); the MAC a "
+           "signature is compared with depends on (message, key, hash) only, never on state kept on the shared algorithm object.",
+    "C02": "Also decided: every normal exit of a decrypt() is an explicit return of the verified result and no exception handler completes normally; "
+           "assuming direct mode no completing path avoids the non-empty-encrypted-key rejection; the JSON aad member is authenticated for every JSON "
+           "serialization class; a keep-first-and-compare CEK idiom must establish equality on every continuing path.",
+    "C05": "Also decided: compression is looked up whenever a zip value is present (presence, not truthiness), so every unknown zip value reaches the refusing lookup.",
+    "C06": "Also decided: the PEM / SSH prefix test is evaluated for every imported secret (no pre-filter in front of it).",
+    "C07": "Also decided: the b64=false attach pattern admits no '.', so an attached unencoded payload never adds a segment.",
+    "C08": "Also decided: exactly the PBES2 counts below 1 (and above the backend maximum) are refused; the published p2s is the salt that is used.",
+    "C09": "Also decided: every key guess_key can return from a key set comes from get_by_kid(header kid) or pick_random_key with kid write-back.",
+    "C10": "Also decided: the un-wrapped use of aud is guarded by isinstance(value, list / tuple / set) on every path (a str is always wrapped).",
+    "C11": "Also decided: use / key_ops consistency is a subset test reached whenever both members are present; PEM / DER encoding dispatch is the documented "
+           "finite map; a key built from a JWK keeps exactly the given members (+ parameters, kty); password / encoding / parameters are forwarded at every "
+           "call between functions that take them.",
+    "C12": "Also decided: the `private` flag is forwarded at every call between functions that take it (a dropped argument would select 'whatever the key holds').",
+    "C13": "Also decided: exports hand out a copy, never the key's own dict (a caller cannot overwrite the kid through an export).",
+    "C14": "Also decided: the kid recorded by key selection is in the header that gets encoded (selection precedes encoding and writes into the encoded dict); "
+           "every route from guess_key into a key set is get_by_kid(header kid) or pick_random_key.",
+    "C15": "Also decided: every definition of the registry given to check_supported_header is rooted at the instance registry (+ the model's own table).",
+    "C16": "Also decided: (E2e/E2f) list validators refuse non-str members and a JWK member hashed against a dict / set table is known to be a str; (E6) the "
+           "repository's own type checker, run by the typed layer, reports no use of an Optional value as if present in consume-reachable code.",
+    "C18": "Also decided: every store to .ephemeral_key is None or a fresh generate_key result.",
+    "C20": "Also decided: what a shallow copy contains is treated as shared with the original (mutating X.copy().get(k) is a write to X).",
+}
+
 NOT_YET = "check not built yet (build in progress; see DESIGN.md section 5 for the planned rules)"
 
 
@@ -214,7 +241,7 @@ def main() -> None:
                 "evidence_file": f"/verif/evidence/{pid}.json",
                 "replay_cmd_template": f"{PY} -m jv replay {{path}}",
                 "engine": "jv",
-                "level_claimed": {"category": "other", "text": text, "design_ref": f"DESIGN.md section {ref}"},
+                "level_claimed": {"category": "other", "text": text + (" " + ADDENDA[pid] if pid in ADDENDA else ""), "design_ref": f"DESIGN.md section {ref} and 11.2"},
                 "level_note": note,
                 "technique": tech,
             })
